@@ -162,34 +162,47 @@ def d3(cx: Cx, ob: Ob) -> None:
                     ob.violate(ap.qualname, where(ap, ev.line), f"Record field `{f}` is not built from the `{f}` argument", detail=f"role:{f}")
 
 
-@obligation("C05-D4", "pairing: every path of add_record that merges or appends passes afterwards through _index of the record that changed", floor=2)
+@obligation("C05-D4", "pairing: every path of add_record that returns normally merges into or appends a record and passes afterwards, unconditionally, through _index of the record that changed", floor=2)
 def d4(cx: Cx, ob: Ob) -> None:
+    check_add_record_pairing(cx, ob)
+
+
+def check_add_record_pairing(cx: Cx, ob: Ob) -> None:
     fn = cx.fn(f"{CONV}.add_record", ob.id)
     s = cx.summary(fn, ob.id)
     me = ("param", fn.self_name)
 
-    def scan(paths):
+    def calls_of(ev):
+        out = []
+        for t in (ev.a, ev.b, ev.c):
+            if isinstance(t, tuple) and t and isinstance(t[0], str):
+                out += [c for c in subterms(t) if op(c) == "call"]
+        return out
+
+    def scan(paths, top):
         for p in paths:
-            changed = []  # (record term, line, how)
+            changed = []  # [record term, line, how, indexed]
             for ev in p.events:
-                if ev.kind == "expr" and op(ev.a) == "call":
-                    c = ev.a
-                    if self_call(c, me, "_merge"):
-                        into = dict(c[3]).get("into") or (c[2][1] if len(c[2]) > 1 else None)
-                        changed.append([into, ev.line, "merge", False])
-                        if c[2][:1] != (("param", "record"),) and dict(c[3]).get("record") != ("param", "record"):
-                            ob.violate(fn.qualname, where(fn, ev.line), "_merge is not given the incoming record", detail="merge-arg")
-                    elif op(c[1]) == "attr" and c[1][2] in ("append", "insert") and c[1][1] == ("attr", me, "records"):
-                        changed.append([c[2][-1] if c[2] else None, ev.line, "append", False])
-                    elif self_call(c, me, "_index"):
-                        for ch in changed:
-                            if c[2][:1] == (ch[0],):
-                                ch[3] = True
+                if ev.kind in ("expr", "bind", "guard", "store"):
+                    for c in calls_of(ev):
+                        if self_call(c, me, "_merge"):
+                            into = dict(c[3]).get("into") or (c[2][1] if len(c[2]) > 1 else None)
+                            if not any(ch[1] == ev.line and ch[2] == "merge" for ch in changed):
+                                changed.append([into, ev.line, "merge", False])
+                            if c[2][:1] != (("param", "record"),) and dict(c[3]).get("record") != ("param", "record"):
+                                ob.violate(fn.qualname, where(fn, ev.line), "_merge is not given the incoming record", detail="merge-arg")
+                        elif op(c[1]) == "attr" and c[1][2] in ("append", "insert") and c[1][1] == ("attr", me, "records"):
+                            changed.append([c[2][-1] if c[2] else None, ev.line, "append", False])
+                        elif self_call(c, me, "_index"):
+                            for ch in changed:
+                                if c[2][:1] == (ch[0],):
+                                    ch[3] = True
                 if ev.kind in ("loop", "while") and ev.body:
-                    scan(ev.body)
+                    scan(ev.body, False)
+            normal = p.out is None or p.out[0] == "return"
             for rec, line, how, done in changed:
                 ob.site(f"{where(fn, line)} {fn.qualname}", f"{how} -> _index")
-                if not done and (p.out is None or p.out[0] == "return"):
+                if not done and normal:
                     conds = [("" if g.b else "not ") + show(g.a)[:60] for g in p.events if g.kind == "guard"]
                     ob.violate(
                         fn.qualname,
@@ -198,8 +211,18 @@ def d4(cx: Cx, ob: Ob) -> None:
                         witness=" -> ".join(conds),
                         detail=f"unindexed:{how}",
                     )
+            if top and normal and not changed:
+                conds = [("" if g.b else "not ") + show(g.a)[:60] for g in p.events if g.kind == "guard"]
+                line = p.out[2] if p.out else fn.node.end_lineno
+                ob.violate(
+                    fn.qualname,
+                    where(fn, line),
+                    "add_record can return normally without merging or appending the record: its prefixes / synonyms are silently dropped",
+                    witness=" -> ".join(conds),
+                    detail="no-op-return",
+                )
 
-    scan(s.paths)
+    scan(s.paths, True)
 
 
 @obligation("C05-D5", "SETALG frame+cover: _merge adds {prefix, synonyms} / {uri_prefix, synonyms} of the incoming record to the synonym lists of `into` only when absent, and never stores into.prefix / into.uri_prefix / into.pattern", floor=2)
@@ -323,6 +346,15 @@ def check_match_record(cx: Cx, ob: Ob) -> None:
                     pass
         return None
 
+    for p in s.paths:
+        if p.out is not None and p.out[0] == "return" and not any(ev.kind == "loop" and ev.line == lp.line for ev in p.events):
+            ob.violate(
+                fn.qualname,
+                where(fn, p.out[2]),
+                "_match_record returns before scanning self.records: a record that also overlaps another existing record is reported as a single match (and merged) instead of rejected",
+                witness=" -> ".join(("" if g.b else "not ") + show(g.a)[:60] for g in p.events if g.kind == "guard"),
+                detail="return-before-scan",
+            )
     e = early(lp.body)
     if e is not None:
         ob.violate(fn.qualname, where(fn, e), "_match_record leaves the scan of self.records early: a record overlapping two existing records is reported as a single match", detail="early-exit")
